@@ -5,6 +5,7 @@ import (
 	"fmt"
 	"reflect"
 	"strings"
+	"unsafe"
 
 	"github.com/junioryono/godi/v4"
 	"github.com/junioryono/godi/v4/verifh/pool"
@@ -23,16 +24,24 @@ var uGroups = []string{"g", "h"}
 
 var typeName = map[reflect.Type]string{}
 
-// ctorByPtr maps the code pointer of every pool constructor to its id (ToSlice descriptors
-// are mapped back to the registration call through it).
+// ctorByPtr maps the function VALUE of every pool constructor to its id (ToSlice descriptors are
+// mapped back to the registration call through it). The key is the address of the function
+// value's closure object, not the code pointer: the pool has closures of one function literal,
+// which share their code.
 var ctorByPtr = map[uintptr]int{}
+
+// funcValueID identifies a function value: the data word of the interface holding it (top-level
+// functions: their static descriptor; closures: the closure object).
+func funcValueID(fn any) uintptr {
+	return uintptr((*[2]unsafe.Pointer)(unsafe.Pointer(&fn))[1])
+}
 
 func init() {
 	for _, n := range uTypes {
 		typeName[pool.T(n)] = n
 	}
 	for i := range pool.Ctors {
-		ctorByPtr[reflect.ValueOf(pool.Ctors[i].Fn).Pointer()] = pool.Ctors[i].ID
+		ctorByPtr[funcValueID(pool.Ctors[i].Fn)] = pool.Ctors[i].ID
 	}
 }
 
